@@ -605,6 +605,11 @@ func orderOf(v *Val) string {
 			t = g.Type().(*types.Pointer).Elem()
 		}
 	}
+	if v.Op == "param" || (v.Op == "init" && len(v.Args) == 1 && addrRoot(v.Args[0]) != nil && addrRoot(v.Args[0]).Op == "param" && v.Args[0].Op != "global") {
+		if t != nil && types.TypeString(t, nil) == "encoding/binary.ByteOrder" {
+			return "param" // chosen by the caller: judged where a constant is passed (inlined into every message codec)
+		}
+	}
 	if t == nil {
 		return "?"
 	}
